@@ -3,8 +3,14 @@ import importlib
 from fvverif.runner import obligations_of
 
 
+ALL_MODULES = ['contracts.' + m for m in ('ops', 'bc', 'solver', 'mesh', 'means', 'limiters', 'state', 'algebra', 'purity', 'loud',
+                                            'units', 'embed', 'dmp', 'canaries')]
+
+
 def jobs_for(prop, modules, tier, quick_skip=()):
-    modules = list(modules) + [m for m in ('contracts.canaries',) if m not in modules]
+    # every contract module is scanned: an obligation belongs to a property through its `props` tag, the MODULES list of
+    # a property file only documents where most of its clauses live
+    modules = list(modules) + [m for m in ALL_MODULES if m not in modules]
     jobs = obligations_of(modules, prop)
     if tier == 'quick':
         keep = []
